@@ -26,6 +26,11 @@ type Path struct {
 	IsVar   bool // the position holds an unknown itself
 	Tainted bool // the position holds a container with an unknown somewhere inside
 	Text    string
+	// set by the rich templates (gen_partial2.go) only
+	Ign      bool        // the position holds an ignore marker itself (or lies inside an ignored request part)
+	TaintIgn bool        // the position holds a container with an ignore marker somewhere inside
+	RecSet   bool        // a set whose members are records {n, s}
+	Val      types.Value // the value at this position in the template (nil: not known statically)
 }
 
 // Template is a request whose parts may hold unknowns / ignore markers.
@@ -35,6 +40,9 @@ type Template struct {
 	VarKind map[types.String]Ty // expected kind of each unknown (first position seen)
 	Ignored []string            // ignored parts ("principal", …)
 	Paths   []Path
+	// set by the rich templates (gen_partial2.go) only
+	NestedIgn []NestedIgn   // ignore markers nested inside the context record
+	KindAt    map[string]Ty // static kind of the position with this path text
 }
 
 func (t *Template) VarNames() []types.String {
